@@ -592,3 +592,126 @@ func WReport(rep *telemetry.Report) []string {
 	}
 	return out
 }
+
+// ---------------------------------------------------------------- weeks with several programs sharing names
+
+// FileSpec: one counter file to be written (identity, omitted metadata line, Count map).
+type FileSpec struct {
+	ID     Ident
+	Omit   int
+	Counts []KV
+}
+
+// GenSharedNamesWeek: a configuration with 2-3 DIFFERENT programs and a week
+// in which approved builds of each of them recorded counters and stack
+// counters of the SAME names, which the configuration approves, rates or
+// omits differently per program.  The files come in random order (the order
+// of the programs in the weekly report is the order of the files).
+func GenSharedNamesWeek(r *Rand, x float64) (*telemetry.UploadConfig, []FileSpec) {
+	cfg := &telemetry.UploadConfig{
+		GOOS: subset(r, osPool[:3], 1+r.Intn(2)), GOARCH: subset(r, archPool[:3], 1+r.Intn(2)),
+		GoVersion: subset(r, goPool[:3], 1+r.Intn(2)),
+	}
+	cfg.SampleRate = Pick(r, []float64{0, 0, 1})
+	names := []string{"cmd/go", "golang.org/x/tools/gopls", "cmd/compile"}
+	// shuffle
+	for i := len(names) - 1; i > 0; i-- {
+		j := r.Intn(i + 1)
+		names[i], names[j] = names[j], names[i]
+	}
+	np := 2 + r.Intn(2)
+	names = names[:np]
+	common := Pick(r, verPool[:4])
+	stackTitles := subset(r, []string{"stk", "crash/crash", "gopls/bug", "foo", "main/x"}, 1+r.Intn(2))
+	counterNames := subset(r, []string{"foo", "chart:a", "main/x", "bar", "gopls/bug"}, 1+r.Intn(2))
+	cfgName := func(n string) string {
+		if n == "chart:a" {
+			return "chart:{a,b,c}"
+		}
+		return n
+	}
+	// per program and shared name: 0 approved with rate 1, 1 approved with a rate placed at/below X,
+	// 2 not configured, 3 configured as the other kind only
+	status := func(pi, ni int) int {
+		if ni == 0 && pi == 0 {
+			return 0
+		}
+		if ni == 0 && pi == 1 {
+			return Pick(r, []int{2, 2, 1, 3})
+		}
+		return r.Intn(4)
+	}
+	low := func() float64 {
+		if x > 0 {
+			return Pick(r, []float64{0, math.Nextafter(x, -1), x})
+		}
+		return 0
+	}
+	for pi, n := range names {
+		p := &telemetry.ProgramConfig{Name: n, Versions: append(subset(r, verPool[:4], r.Intn(2)), common)}
+		for ni, t := range stackTitles {
+			switch status(pi, ni) {
+			case 0:
+				p.Stacks = append(p.Stacks, telemetry.CounterConfig{Name: t, Rate: 1, Depth: 8})
+			case 1:
+				p.Stacks = append(p.Stacks, telemetry.CounterConfig{Name: t, Rate: low(), Depth: 8})
+			case 3:
+				p.Counters = append(p.Counters, telemetry.CounterConfig{Name: t, Rate: 1})
+			}
+		}
+		for ni, c := range counterNames {
+			switch status(pi, ni) {
+			case 0:
+				p.Counters = append(p.Counters, telemetry.CounterConfig{Name: cfgName(c), Rate: 1})
+			case 1:
+				p.Counters = append(p.Counters, telemetry.CounterConfig{Name: cfgName(c), Rate: low()})
+			case 3:
+				p.Stacks = append(p.Stacks, telemetry.CounterConfig{Name: c, Rate: 1, Depth: 4})
+			}
+		}
+		cfg.Programs = append(cfg.Programs, p)
+	}
+	var files []FileSpec
+	frames := func() string {
+		n := 1 + r.Intn(2)
+		fs := make([]string, n)
+		for i := range fs {
+			fs[i] = Pick(r, framePool[:4])
+		}
+		return strings.Join(fs, "\n")
+	}
+	sharedFrames := frames()
+	for _, n := range names {
+		id := Ident{Program: n, Version: common, GoVersion: Pick(r, cfg.GoVersion), GOOS: Pick(r, cfg.GOOS), GOARCH: Pick(r, cfg.GOARCH)}
+		seen := map[string]bool{}
+		var counts []KV
+		add := func(k string) {
+			if !seen[k] {
+				seen[k] = true
+				counts = append(counts, KV{k, GenValue(r)})
+			}
+		}
+		for _, t := range stackTitles {
+			if r.Chance(60) {
+				add(t + "\n" + sharedFrames)
+			} else {
+				add(t + "\n" + frames())
+			}
+		}
+		for _, c := range counterNames {
+			add(c)
+		}
+		for _, kv := range GenCounts(r, cfg, n, 2) {
+			add(kv.K)
+		}
+		files = append(files, FileSpec{ID: id, Counts: counts})
+		if r.Chance(20) { // a second file of the same build
+			files = append(files, FileSpec{ID: id, Counts: counts[:1+r.Intn(len(counts))]})
+		}
+	}
+	for i := len(files) - 1; i > 0; i-- {
+		j := r.Intn(i + 1)
+		files[i], files[j] = files[j], files[i]
+	}
+	return cfg, files
+}
